@@ -268,3 +268,32 @@ CHECKS['C10'] = dict(
     min_counters={'quick': {'ms_channels_equal': 100000, 'layout_family_tables_ok': 1000, 'matrix_exports_equal': 20, 'projection_roundtrips_ok': 20, 'lfe_streams_checked': 300},
                   'thorough': {'ms_channels_equal': 2000000}},
 )
+
+C17_WRAPS = ['ec_decode_bin', 'ec_dec_update', 'ec_encode_bin', 'ec_laplace_decode', 'ec_enc_icdf', 'ec_dec_icdf', 'ec_enc_icdf16', 'ec_dec_icdf16']
+CHECKS['C17'] = dict(
+    level='exploration',
+    rule="pvq: one case per pulse-cache row of the static mode (LM -1..3 x 21 bands = every N the codec can use incl. split halves): for "
+         "every K the row allows, V(N,K) from the code vs a 128-bit recurrence and < 2^32, then every index (V <= vmax) or both ends, powers "
+         "of two +-1 and random samples through cwrsi/icwrs (exactly K pulses, index comes back), and random vectors through "
+         "encode_pulses/decode_pulses with a real range coder. cache: every cache entry monotone and within 1/8 bit above the exact "
+         "ceil(8 log2 V). laplace: the (fs,decay) pairs are collected from the real unquant_coarse_energy (interposed ec_laplace_decode) for "
+         "every LM x intra; for each pair all 32768 probability points are fed to the real ec_laplace_decode through an interposed "
+         "ec_decode_bin and the committed intervals must tile [0,32768); ec_laplace_encode must commit the decoder's interval of the value "
+         "it reports for every value in range +-6; real-coder round trips. icdf: every table passed to ec_*_icdf(16) during encode/decode/"
+         "hostile-decode workloads, and every object of the binary named *icdf* (from its own symbol table), split at zeros. This is "
+         "exhaustive over the enumerated finite spaces (evidence counters), sampled where V > vmax.",
+    assumptions=COMMON_ASSUME + ["the PVQ index functions are static: the working tree's celt/cwrs.c is compiled into the harness unit (same source, same flags)",
+                                 "the cache may over-estimate by at most 1/8 bit (conservative log2), never under-estimate"],
+    evals_counter=None,
+    runs=[
+        dict(h='h_c17.c', mode='pvq', flavour='asan', n=105, wraps=C17_WRAPS, args={'quick': ['vmax=300000', 'samples=3000'], 'thorough': ['vmax=16777216', 'samples=200000']}),
+        dict(h='h_c17.c', mode='cache', flavour='asan', n=1, shards=1, wraps=C17_WRAPS),
+        dict(h='h_c17.c', mode='laplace', flavour='asan', n=200, wraps=C17_WRAPS),
+        dict(h='h_c17.c', mode='icdf', flavour='asan', n=1, shards=1, wraps=C17_WRAPS),
+        dict(h='h_c17.c', mode='pvq', flavour='asan-fixed', n=105, wraps=C17_WRAPS, args={'quick': ['vmax=20000', 'samples=500'], 'thorough': ['vmax=1000000', 'samples=20000']}),
+        dict(h='h_c17.c', mode='laplace', flavour='asan-fixed', n=200, wraps=C17_WRAPS),
+    ],
+    min_nontrivial={'quick': 300, 'thorough': 300},
+    min_counters={'quick': {'pvq_NK_pairs': 600, 'pvq_pairs_exhaustive': 300, 'laplace_points_checked': 300 * 32768, 'icdf_live_tables_distinct': 60, 'icdf_static_tables_checked': 30, 'cache_entries_checked': 1000},
+                  'thorough': {'pvq_NK_pairs': 600}},
+)
